@@ -30,7 +30,11 @@ MANIFEST = {
     "technique": "Lean 4 proof that a model of the parser's precedence pipeline (get_defaults, _load_env_vars, merge_config = update + apply_appends, "
                  "argv fold with --cfg at its position) equals a ten-line reference fold of assignments, key by key; differential correspondence of "
                  "the model with the real ArgumentParser over generated parsers and every subset of sources; regenerated table of the merge calls / loop "
-                 "order the model transcribes (Gen/SourcesOrder, pinned by a theorem); independent Python reference fold as oracle",
+                 "order the model transcribes (Gen/SourcesOrder, pinned by a theorem); independent Python reference fold as oracle; "
+                 "second part: Lean model of the default_env property setter over the parser tree (uniformity after any history of setter calls) and of "
+                 "the subcommand levels (every level's own parse_args + the handle_subcommands merges of all enclosing parsers), proof that the order of "
+                 "sources holds at every depth when the flags along the path agree, correspondence and oracle over histories (setter calls interleaved "
+                 "with parses) on real parser trees up to three levels below the root",
     "text": "Theorems in lean/Jap/Props/C04.lean prove, for every parser of the model (leaf arguments with flat or dotted destinations that are pairwise "
             "divergent, scalar / list / dict typed, one config argument), every list of default config files, environment and command line of any length, "
             "that the value the model pipeline leaves at every argument equals the left fold of the flattened sources in the documented order "
@@ -40,10 +44,24 @@ MANIFEST = {
             "regenerating, from the AST of /repo, the argument order of every merge_config call, the body of merge_config, the loops of "
             "_load_env_vars, the ordering of default config files, apply_appends, Namespace.update and get_env_var into Gen/SourcesOrder "
             "(C04_transcription_pin) and by running model and real parser on the same generated parser specs and sources and comparing every "
-            "key; the property itself is evaluated on the real code against an independent reference fold.",
+            "key; the property itself is evaluated on the real code against an independent reference fold.  Subcommand levels: "
+            "C04_setter_uniform / _history / _path_flags / C04_build_uniform prove that after any history of assignments to the root's default_env "
+            "(under any JSONARGPARSE_DEFAULT_ENV) every parser of the tree holds the same resolved flag; C04_order_depth_partial and "
+            "C04_order_tree_after_setter prove, for a chosen path of subcommands of any depth and any number of sources per level, that each "
+            "level's arguments end with the fold of that level's sources in the documented order (after the level's own parse_args and the "
+            "handle_subcommands merges of every enclosing parser, defaults=False included) provided the parsers of the path agree on reading the "
+            "environment; C04_order_depth_nonuniform_counterexample / C04_setter_shallow_counterexample show the hypothesis is needed and what a "
+            "non-recursive setter would leave.  The whole default_env setter, add_subcommand's inheritance, _ActionSubCommands.__call__, "
+            "handle_subcommands, parse_env and the env resolution of _parse_common are pinned; histories on real parser trees (setter calls on any "
+            "parser of the tree interleaved with parse_args / parse_object along a path, env variables and options at every level, root --cfg with "
+            "sections) are compared with the model (flags computed by the model's setter) and judged by an independent per-level fold.",
     "level_note": "Trusted: Lean kernel; axioms propext/Quot.sound/Classical.choice only; the correspondence harness and its generators; the C11 refinement "
                   "(setK/getK are __setitem__/__getitem__ when no dict value is on the key path). Outside: argparse tokenisation, glob/expanduser, the "
-                  "loaders, type adaptation (values are generated in normal form), subcommands, groups, links, positionals.",
+                  "loaders, type adaptation (values are generated in normal form), groups, links, positionals.  Subcommands: the model covers "
+                  "parse_args along a path chosen on the command line, level by level (the nesting cfg[name] = sub is the C11 algebra); sections for "
+                  "inner levels inside an outer config, parse_object on trees, and setter calls on inner parsers are exercised by the Python oracle "
+                  "only (sections/parse_object) or by the correspondence only (mixed flags: the documentation does not say what to expect); the "
+                  "subcommand environment variable and default config files of parsers with subcommands are C17's subject (open findings there).",
 }
 
 FINDING_ENV_APPEND = "C04-envcfg-append"
@@ -609,6 +627,8 @@ def gen_case(rng, spec, mask, method, n_argv, bad=False):
         for d in focus:
             if rng.random() < 0.7:
                 case["env_vars"][d] = gen_value(rng, arg_of(spec, d)["type"])
+                if arg_of(spec, d)["type"] == "str" and rng.random() < 0.2:
+                    case["env_vars"][d] = ""  # a variable that is set to the empty string is an assignment of ""
     if method == "env_dict":  # what os.environ holds while the mapping is given explicitly
         case["decoy_vars"] = {d: gen_value(rng, arg_of(spec, d)["type"]) for d in focus if rng.random() < 0.8}
         if cd is not None and rng.random() < 0.5:
@@ -860,7 +880,13 @@ def run(ctx: Ctx):
                 "parse_string, parse_path, parse_object} x arguments of the call (defaults=False, env=True/False, parse_env(mapping) incl. the EMPTY "
                 "mapping while os.environ holds other values for the same variables) x six lists of default_config_files entries "
                 "(globs, listed != alphabetical order, files reached by two entries; the MODEL orders the files from the match relation); each case: real vs Lean model key by key AND real vs independent ref_fold; "
-                "non-trivial = some key is assigned by >= 2 sources besides its default; distinct by canonical JSON of (spec, case)")
+                "non-trivial = some key is assigned by >= 2 sources besides its default; distinct by canonical JSON of (spec, case).  PARSER TREES: "
+                "(tree spec, history): root (1-3 leaf arguments, optional config argument) with 1-2 subcommands per parser down to 1-3 levels, built in "
+                "level order, constructor default_env per parser x JSONARGPARSE_DEFAULT_ENV at construction; history = 2-5 parses on the SAME objects "
+                "(parse_args along a random path with 0-3 items per level, env variables for the parsers on and off the path, defaults=False, env=True/False, "
+                "root --cfg with sections of the inner levels, parse_object with nested sections) interleaved with assignments to default_env of the root (70%) "
+                "or an inner parser under a value of JSONARGPARSE_DEFAULT_ENV; each parse: real vs independent per-level fold, real vs Lean parseTree "
+                "(flags from the model's setter); non-trivial there = a level below the root has an environment variable on the path and some parser reads the environment")
     ctx.assumptions = [
         "values are generated in normal form (ints, strings at str-typed keys, int lists, str->int dicts): type adaptation is C02's subject",
         "a config mapping is flattened as its plain keys followed by its `key+` keys (a mapping has no order; this is the order merge_config implements)",
@@ -873,7 +899,9 @@ def run(ctx: Ctx):
 
     from ..lib import corpus as corpus_mod
 
-    pairs = [(c["spec"], c["case"]) for c in corpus_mod.load(ctx.prop)]
+    corpus = corpus_mod.load(ctx.prop)
+    pairs = [(c["spec"], c["case"]) for c in corpus if "history" not in c]
+    tree_corpus = [(c["spec"], c["history"]) for c in corpus if "history" in c]
     n_corpus = len(pairs)
 
     # --- generated: every subset of sources, for every method, per parser --------------------------
@@ -973,12 +1001,21 @@ def run(ctx: Ctx):
             if judge(ctx, bench, spec, case, bench.run(spec, case), "neighbourhood of a correspondence disagreement"):
                 new += 1
 
+    # --- subcommand levels and the default_env switch: histories on one parser tree -----------------------
+    run_trees(ctx, bench, tree_corpus, new)
+
     # --- open findings ------------------------------------------------------------------------------
+    from . import c04_tree as T
+
     for f in ctx.open_findings():
         w = f["witness"]
-        res = oracle(w["spec"], w["case"], bench.run(w["spec"], w["case"]))
         ctx.count()
-        if res is not None:
+        if "history" in w:
+            still = any(T.oracle(w["spec"], w["history"], i, real, flags) is not None
+                        for i, real, flags in T.run_history(w["spec"], w["history"], bench.root))
+        else:
+            still = oracle(w["spec"], w["case"], bench.run(w["spec"], w["case"])) is not None
+        if still:
             ctx.known(f["id"], f["description"])
         else:
             ctx.stale_findings.append(f["id"])
@@ -987,10 +1024,103 @@ def run(ctx: Ctx):
     ctx.extra["well_formed_cases"] = sum(1 for s, c in pairs if well_formed(s, c))
 
 
+def run_trees(ctx: Ctx, bench, tree_corpus, new):
+    """histories on parser trees with subcommands: real vs independent fold (oracle) and real vs Lean model (`parseTree`)"""
+    from . import c04_tree as T
+
+    n_specs = ctx.budget(30, 150) * (2 if ctx.search_boost > 1 else 1)
+    per_spec = ctx.budget(6, 12)
+    work = list(tree_corpus)
+    for s in range(n_specs):
+        spec = T.gen_tree_spec(ctx.rng, s)
+        for _ in range(per_spec):
+            work.append((spec, T.gen_history(ctx.rng, spec)))
+    runs = []  # (spec, hist, step, real, flags)
+    for spec, hist in work:
+        for i, real, flags in T.run_history(spec, hist, bench.root):
+            case = hist[i]["case"]
+            runs.append((spec, hist, i, real, flags))
+            ctx.count()
+            ctx.hist("tree_depth", len(case["path"]))
+            ctx.hist("tree_method", case["method"] + ("/sections" if case.get("sections") else ""))
+            ctx.hist("tree_setters_before", min(3, sum(1 for st in hist[:i] if st["op"] == "set")))
+            ctx.hist("tree_flags_along_path", "uniform" if len(set(flags)) == 1 else "mixed")
+            ctx.hist("tree_call", "defaults=%s env=%s" % (case.get("defaults", True), case.get("env_arg")))
+            ctx.hist("tree_outcome", real[0])
+            n_env = sum(1 for full in case.get("env_vars", {}) if full.split(".")[:len(case["path"])] == case["path"][:len(full.split(".")) - 1])
+            if real[0] == "ok" and len(case["path"]) >= 1 and n_env and any(flags):
+                ctx.nontrivial(json.dumps([spec, hist[: i + 1]], sort_keys=True))
+    for spec, hist in work[len(tree_corpus) : len(tree_corpus) + 1]:
+        ctx.sample({"spec": spec, "history": hist})
+    ctx.extra["tree_histories"] = len(work)
+    ctx.extra["tree_parses"] = len(runs)
+
+    # correspondence: the model's setter decides the flags, the model's levels give the values
+    sel = [r for r in runs if T.in_model(r[1][r[2]]["case"])]
+    try:
+        outs = ctx.driver("Sources", [T.model_line(spec, hist, i) for spec, hist, i, _, _ in sel], timeout=1800) if sel else []
+    except MachineryError as ex:
+        if ctx.lean_ok:
+            raise
+        ctx.tie_break("correspondence Sources (parser trees) not runnable (model does not build)", str(ex))
+        outs = []
+    n_bad = n_dom = 0
+    for (spec, hist, i, real, flags), mod in zip(sel, outs):
+        d = T.compare_model(hist[i]["case"], real, flags, mod)
+        if d is not None:
+            n_bad += 1
+            if n_bad <= 3:
+                ctx.tie_break("correspondence Sources (parser tree: setter + levels vs jsonargparse) disagrees",
+                              json.dumps({"spec": spec, "history": hist[: i + 1], "why": d}, ensure_ascii=True)[:1800])
+        if mod.get("domain") and mod.get("uniform") and mod.get("guard"):
+            n_dom += 1
+            lv, rf = [flat_wire(x) for x in mod["levels"]], [flat_wire(x) for x in mod["ref"]]
+            if any(a.get(k) != r.get(k) for a, r in zip(lv, rf) for k in set(a) | set(r) if k != "cfg"):
+                ctx.tie_break("Lean evaluation of parseTree differs from the per-level refFold inside the domain of C04_order_depth_partial",
+                              json.dumps({"spec": spec, "history": hist[: i + 1]}, ensure_ascii=True)[:1500])
+                break
+    ctx.extra["tree_cases_in_model"] = len(sel)
+    ctx.extra["tree_cases_in_depth_theorem_domain"] = n_dom
+    ctx.extra["tree_correspondence_disagreements"] = n_bad
+
+    # oracle
+    seen_hist = set()
+    for spec, hist, i, real, flags in runs:
+        if new >= 3:
+            break
+        res = T.oracle(spec, hist, i, real, flags)
+        if res is None:
+            continue
+        known, desc = res
+        if known and ctx.is_open(known):
+            ctx.known(known, desc)
+            continue
+        key = json.dumps([spec, hist], sort_keys=True)
+        if key in seen_hist:
+            continue
+        seen_hist.add(key)
+        small = T.shrink_history(spec, hist[: i + 1], lambda h, spec=spec: T.first_bad(ctx, spec, h, bench.root) is not None)
+        fb = T.first_bad(ctx, spec, small, bench.root)
+        ctx.violation("the parsed value differs from the fold of the sources in the documented order (subcommand levels): %s" % (fb[1][1] if fb else desc),
+                      {"kind": "oracle-tree", "spec": spec, "history": small, "detail": fb[1][1] if fb else desc})
+        new += 1
+
+
 def replay(ctx: Ctx, body):
     repo_python_path()
     bench = Bench()
     r = body["replay"]
+    if r.get("kind") == "oracle-tree":
+        from . import c04_tree as T
+
+        rc = 0
+        for i, real, flags in T.run_history(r["spec"], r["history"], bench.root):
+            res = T.oracle(r["spec"], r["history"], i, real, flags)
+            print("step %d: default_env along the path %s: real result %s" % (i, flags, json.dumps(real, ensure_ascii=True)))
+            print("   deviation from the reference fold:", res)
+            if res is not None:
+                rc = 1
+        return rc
     if r.get("kind") != "oracle":
         print("nothing to replay on the real code:", json.dumps(r)[:500])
         return 1
